@@ -110,13 +110,14 @@ Definition attrs_not_captured (m : xmeta) : bool :=
 
 (* the element whose start event was just consumed drops the attribute a *)
 Definition drops_attr (cfg : pconfig) (st : pstate) (a : qname) : bool :=
-  match st_queue st with
-  | NSkip :: _ => true
-  | NElement en :: _ =>
-      unknown_attr (en_meta en) a && attrs_not_captured (en_meta en)
-      && (negb (fail_unknown_attrs cfg) || in_xsi_namespace a)
-  | _ => false
-  end.
+  negb (str_eqb a XSI_TYPE) && negb (str_eqb a XSI_NIL)
+  && match st_queue st with
+     | NSkip :: _ => true
+     | NElement en :: _ =>
+         unknown_attr (en_meta en) a && attrs_not_captured (en_meta en)
+         && (negb (fail_unknown_attrs cfg) || in_xsi_namespace a)
+     | _ => false
+     end.
 
 Definition admissible_step (n : nat) (cfg : pconfig) (c : conv) (u : universe) (root : option cls)
            (d' : list pevent) (s : undo) : bool :=
@@ -199,3 +200,88 @@ Definition oracle_strict (x : c10_case) : bool :=
       then outcome_eqb obs_inj (Err ParserError) else true
   | _ => true
   end.
+
+(* ---------------------------------------------------------------- the FULL statement (refuted) *)
+(* C10 as worded: every unknown attribute is dropped -- admissibility without the clause
+   `attrs_not_captured`.  Refuted (Properties/C10.v C10_unknown_attribute_dropped_refuted); the
+   oracle evaluates it to classify failures that go through exactly that clause *)
+Definition drops_attr_full (cfg : pconfig) (st : pstate) (a : qname) : bool :=
+  negb (str_eqb a XSI_TYPE) && negb (str_eqb a XSI_NIL)
+  && match st_queue st with
+     | NSkip :: _ => true
+     | NElement en :: _ =>
+         unknown_attr (en_meta en) a && (negb (fail_unknown_attrs cfg) || in_xsi_namespace a)
+     | _ => false
+     end.
+Definition admissible_step_full (n : nat) (cfg : pconfig) (c : conv) (u : universe) (root : option cls)
+           (d' : list pevent) (s : undo) : bool :=
+  match s with
+  | UndoSub _ _ => admissible_step n cfg c u root d' s
+  | UndoAttr i k =>
+      match nth_error d' i with
+      | Some (PStart _ attrs _) =>
+          match nth_error attrs k, run_n n cfg c u root (firstn (S i) d') with
+          | Some (a, _), ROk st => drops_attr_full cfg st a
+          | _, _ => false
+          end
+      | _ => false
+      end
+  end.
+Fixpoint undo_admissible_full (n : nat) (cfg : pconfig) (c : conv) (u : universe) (root : option cls)
+         (d' : list pevent) (steps : list undo) : bool :=
+  match steps with
+  | [] => true
+  | s :: rest =>
+      match undo_step d' s with
+      | Some d => admissible_step_full n cfg c u root d' s && undo_admissible_full n cfg c u root d rest
+      | None => false
+      end
+  end.
+
+(* ---------------------------------------------------------------- one-pass evaluation used by the harness *)
+(* bit 0: model and implementation disagree on the injected stream; bit 1: hypotheses of
+   C10_skip_transparent hold and the observed outcomes differ; bit 2: the stream obtained by undoing
+   the injections does not parse (in the model) to the plain observation; bit 3: strict position and
+   the observed outcome is not ParserError; bit 4 (coverage): hypotheses hold; bit 5 (coverage): strict
+   position; bit 6: the FULL (refuted) statement's hypotheses hold, the proved one's do not, and
+   the observed outcomes differ (the failure goes through the clause attrs_not_captured) *)
+Definition c10_code (x : c10_case) : N :=
+  let '(cfg, t, u, root, d', steps, obs_inj, obs_plain) := x in
+  let c := conv_of_table t in
+  let eqb := if has_union u then outcome_eqb_nolog else outcome_eqb in
+  let corr := eqb (parse cfg c u root d') obs_inj in
+  let adm := undo_admissible (length d') cfg c u root d' steps in
+  let guard := match adm with Some _ => true | None => false end in
+  let plain_ok := match adm with Some d => eqb (parse cfg c u root d) obs_plain | None => true end in
+  let strict := match steps with
+                | [UndoSub i k] => strict_position (length d') cfg c u root d' i k
+                | _ => false
+                end in
+  (if corr then 0 else 1)
+  + (if guard && negb (eqb obs_inj obs_plain) then 2 else 0)
+  + (if plain_ok then 0 else 4)
+  + (if strict && negb (outcome_eqb obs_inj (Err ParserError)) then 8 else 0)
+  + (if guard then 16 else 0)
+  + (if strict then 32 else 0)
+  + (if negb guard && undo_admissible_full (length d') cfg c u root d' steps && negb (eqb obs_inj obs_plain)
+     then 64 else 0).
+
+(* conversion matrix on observed outcomes: same stream, same unknown-* options, conversion
+   warnings not failing / failing *)
+Definition has_conv_warning (o : outcome) : bool :=
+  match o with Ok _ ws => existsb is_conv_warning ws | Err _ => false end.
+Definition oracle_conversion (x : outcome * outcome) : bool :=
+  let '(nofail, fail) := x in
+  match nofail with
+  | Ok _ _ => if has_conv_warning nofail then outcome_eqb fail (Err ParserError) else outcome_eqb fail nofail
+  | Err _ => true
+  end.
+Definition oracle_same (x : outcome * outcome) : bool := outcome_eqb (fst x) (snd x).
+
+(* bit 0: model and implementation disagree; bit 1: the observed outcome is not documented *)
+Definition c15_code (x : corr_case) : N :=
+  let '(_, _, _, _, _, obs) := x in
+  (if agree_parse x then 0 else 1) + (if outcome_documented obs then 0 else 2).
+
+(* well-formedness conditions of exported universes that the C15 theorem assumes (checked on
+   every universe the real XmlContext produced) are defined with the theorem: Proofs/ParserDoc.v *)
